@@ -1,10 +1,12 @@
 import PlumVerif.Model.VersionsOverlap
+import PlumVerif.Model.VersionsCancel
 import PlumVerif.Model.VersionsDriver
 /-
 Line-protocol front end for overlapping announcements (C15).
 
   c15o <event>*   -> after every event `<queue kinds , or ->/<recorded k:v,… or ->/<task phases>`, `;`-joined
   event : a<k>:<v>,…  (announcement handled: a new callback task)  | e<k>,…  (frame_errors)  | m<a> (task a moves)
+  c15h <event>*   -> the same for histories with device shutdowns: event `k` = device.shutdown() (live callback tasks cancelled: phase x)
   task phase : c (not started) | w<kind> (suspended in Request.create for kind) | d (done) | x (raised)
 -/
 namespace PlumVerif.C15.Overlap
@@ -38,10 +40,21 @@ def runShow (s : OSt) : List Ev → List String
   | [] => []
   | e :: es => showSt (step s e) :: runShow (step s e) es
 
+def parseHEv (s : String) : Option HEv :=
+  if s == "k" then some .shutdown else (parseEv s).map .ev
+
+def hrunShow (s : OSt) : List HEv → List String
+  | [] => []
+  | e :: es => showSt (hstep s e) :: hrunShow (hstep s e) es
+
 def overlapOps : List String → Option String
   | "c15o" :: evs => do
     let es ← evs.mapM parseEv
     let out := runShow init es
+    pure (if out.isEmpty then "." else String.intercalate ";" out)
+  | "c15h" :: evs => do
+    let es ← evs.mapM parseHEv
+    let out := hrunShow init es
     pure (if out.isEmpty then "." else String.intercalate ";" out)
   | _ => none
 
